@@ -19,8 +19,11 @@ MATCHES_STR = (r'matches!\(\s*(\w+),\s*((?:"(?:[^"\\\\]|\\\\.)*"\s*\|?\s*)+)\)',
 
 ITEMS = [
     dict(src=Q, path='fn is_numeric_looking', trusted=True, props=[], ensures=[('regex_is_opaque', 'r == sp_numeric_looking(s.spec_bytes())')]),
-    dict(src=Q, path='fn contains_any_or_is_control', trusted=True, props=[],
-         ensures=[('any_listed_or_control_char', 'r == (exists|k: int| 0 <= k < string@.len() && (values@.contains(#[trigger] string@[k]) || pl_is_cc(string@[k])))')]),
+    # an iterator pipeline (outside the verifier's subset): contract assumed in the deductive part, bounded-only harness on the real text in every
+    # run.  The contract is the code's exact meaning: with an EMPTY list no control character is found (no call site passes one)
+    dict(src=Q, path='fn contains_any_or_is_control', trusted=True, props=[], bounded_props=P, bounded_only=True,
+         bounded=dict(harness='bounded/char_predicates.rs', items=[('src/ser_quoting.rs', 'fn contains_any_or_is_control')], cfgs=['has_contains']),
+         ensures=[('C12:some_character_is_listed_or_is_a_control_character', 'r == (exists|k: int| 0 <= k < string@.len() && (values@.contains(#[trigger] string@[k]) || (values@.len() > 0 && pl_is_cc(string@[k]))))')]),
     dict(src=Q, path='fn is_ambiguous/fn is_ascii_lower', id='is_ambiguous::is_ascii_lower', props=P,
          ensures=[('value', 'r == b | 0x20')]),
     dict(src=Q, path='fn is_ambiguous/fn is_special_inf_nan_ascii', id='is_ambiguous::is_special_inf_nan_ascii', props=P,
